@@ -26,13 +26,16 @@ from common import import_exo, LeanDriver, InfraError, LEAN, REPO, ROOT
 sys.path.insert(0, os.path.dirname(__file__))
 
 KNOWN_CLASSES = {
+    "read@extern": "boundscheck:reads-in-extern-arguments-unchecked",
     "write@win": "boundscheck:write-through-window-unchecked",
     "reduce@win": "boundscheck:write-through-window-unchecked",
     "read@win": "boundscheck:read-inside-base-outside-window",
     "win-": "boundscheck:window-interval-vs-base-unchecked",
 }
 # conditions the real checker asks although no monitor of the semantics depends on them
-NO_MONITOR = ("arg-shape-pos", "call-argshape-pos")
+# (`call-dense`: a callee may assume that its non-window tensor arguments are dense — an entry fact of
+# the theorem; the reference semantics has no layout monitor, views carry their strides)
+NO_MONITOR = ("arg-shape-pos", "call-argshape-pos", "call-dense")
 BAD = {"oob", "assertFail", "badLoop", "nonPosSize", "shapeMismatch", "alias"}
 
 
@@ -142,10 +145,23 @@ def valuations(pj, S, rng, cap):
     dense and (if there are window arguments) a scaled stride variant"""
     from interp import eval_ctrl, EvalError
 
+    # constants of the assertions: sizes around them must be present, or every valuation would
+    # violate e.g. `assert n >= 6` and all conditions would hold vacuously
+    lits = set()
+
+    def walk(e):
+        if isinstance(e, list):
+            if e and e[0] == "int":
+                lits.add(e[1])
+            for x in e:
+                walk(x)
+
+    walk(pj["preds"])
+    extra = sorted({c + d for c in lits for d in (-1, 0, 1) if S < c + d <= 10})
     doms = []
     for (s, k) in ctrl_args(pj):
         if k == "size":
-            doms.append(list(range(1, S + 1)))
+            doms.append(list(range(1, S + 1)) + extra)
         elif k == "bool":
             doms.append([0, 1])
         elif k == "stride":
@@ -173,7 +189,29 @@ def valuations(pj, S, rng, cap):
                 combos.append(pick)
     wins = [(tuple(s), ty) for s, ty in pj["args"] if ty[0] == "tensor" and ty[2]]
     out = []
-    for c in combos:
+
+    def admissible(env):
+        for p in pj["preds"]:
+            try:
+                if not eval_ctrl(p, env):
+                    return False
+            except EvalError:
+                pass   # mentions a stride: left to the driver
+        return True
+
+    good = [c for c in combos if admissible(dict(zip(names, c)))]
+    if total > cap and len(good) < cap // 3:
+        # rejection sampling towards the asserted region
+        seen = set(combos)
+        for _ in range(40 * cap):
+            if len(good) >= cap // 2:
+                break
+            pick = tuple(rng.choice(d) for d in doms)
+            if pick not in seen:
+                seen.add(pick)
+                if admissible(dict(zip(names, pick))):
+                    good.append(pick)
+    for c in good:
         env = dict(zip(names, c))
         variants = [("dense", 1)]
         if wins:
